@@ -275,12 +275,16 @@ func verifC36NewH(delays []time.Duration, rate int, idle time.Duration) *verifC3
 }
 
 // verifC36SymH: any table of n non-negative durations below 2^40 ns (negative entries:
-// VerifC36Delay), any idle timeout below 2^40 ns.
-func verifC36SymH(n int, rate int, idleOn bool) *verifC36H {
+// VerifC36Delay; posOnly: the levels above zero have a delay), any idle timeout below 2^40 ns.
+func verifC36SymH(n int, rate int, idleOn bool, posOnly bool) *verifC36H {
 	delays := make([]time.Duration, n)
 	for i := range delays {
 		delays[i] = time.Duration(verifI64(verifName("delay", i)))
-		verifAssume(delays[i] >= 0)
+		if i == 0 || !posOnly {
+			verifAssume(delays[i] >= 0)
+		} else {
+			verifAssume(delays[i] > 0)
+		}
 		verifAssume(delays[i] < (1 << 40))
 	}
 	idle := time.Duration(0)
@@ -585,27 +589,126 @@ func VerifC36ConcSym() {
 	verifC36UseNativeRest()
 	n := 2
 	rate := 1
-	if verifTier() == 1 {
+	thorough := verifTier() == 1
+	if thorough {
 		n = 2 + verifChoice("tableLen", 2)
 		rate = 1 + verifChoice("rate", 2)
 	}
-	h := verifC36SymH(n, rate, verifChoice("idleOn", 2) == 1)
+	// quick tier: every level above zero has a delay, part of A's delay has passed, and with an
+	// idle timeout only "time passes, B arrives, time passes" (the other combinations: thorough)
+	idleOn := verifChoice("idleOn", 2) == 1
+	thin := idleOn && !thorough
+	h := verifC36SymH(n, rate, idleOn, !thorough)
 	defer h.cleanup()
 	pre := 1 + verifChoice("startLevel", n-1)
 	for i := 0; i < pre; i++ {
 		h.signal()
 	}
 	h.step(3, "") // request A
-	if verifChoice("pause", 2) == 1 {
-		h.step(7, "pauseNs")
+	if !thorough || verifChoice("pause", 2) == 1 {
+		h.step(7, "pauseNs") // part of A's delay passes
 	}
 	// the level changes / time passes up to the next event (A is over, or the idle timeout expires)
-	h.step([]int{0, 1, 2, 6}[verifChoice("change", 4)], "")
+	change, ctxEnded, then := 3, 0, 1
+	if !thin {
+		change, ctxEnded, then = verifChoice("change", 4), verifChoice("ctxEnded", 2), verifChoice("then", 2)
+	}
+	h.step([]int{0, 1, 2, 6}[change], "")
 	// request B, its context alive or ended
-	h.step(3+verifChoice("ctxEnded", 2), "")
+	h.step(3+ctxEnded, "")
 	// B's context ends, or the next event comes
-	if !h.step(5+verifChoice("then", 2), "") {
+	if !h.step(5+then, "") {
 		return
 	}
 	h.step(6, "")
+}
+
+// VerifC36Race: a request, a level change and an observer START at the same time; the scheduler
+// (entry option max_preempt) interleaves them at their lock operations. Whatever the interleaving:
+// the level change and the observer return without time passing, the observer sees the level before
+// or after the change, the request waits exactly the delay of one of these two levels.
+func VerifC36Race() {
+	verifC36UseNativeRest()
+	rate, table := 1, 0
+	if verifTier() == 1 {
+		rate, table = 1+verifChoice("rate", 2), verifChoice("table", 3)
+	}
+	h := verifC36NewH(verifC36Tables[table], rate, 0)
+	defer h.cleanup()
+	pre := 1 + verifChoice("startLevel", h.n-1)
+	for i := 0; i < pre; i++ {
+		h.signal()
+	}
+	before := h.ref
+	after := 0
+	kind := verifChoice("change", 3)
+	switch kind {
+	case 0:
+		after = before
+		if after < h.n-1 {
+			after++
+		}
+	case 1:
+		after = before - rate
+		if after < 0 {
+			after = 0
+		}
+	}
+	r := &verifC36Req{ctx: &verifCtx{done: make(chan struct{})}}
+	r.start = verifClock()
+	h.reqs = append(h.reqs, r)
+	w, o := &verifC36Call{}, &verifC36Call{}
+	go func() {
+		err := h.t.Delay(r.ctx)
+		r.end = verifClock()
+		r.err = err
+		r.done.Store(1)
+	}()
+	go func() {
+		switch kind {
+		case 0:
+			h.t.Signal()
+		case 1:
+			h.t.Release()
+		case 2:
+			h.t.Reset()
+		}
+		w.done.Store(1)
+	}()
+	go func() {
+		o.level = h.t.Level()
+		o.delay = h.t.GetDelay()
+		o.done.Store(1)
+	}()
+	verifSettle()
+	h.ref = after
+	verifAssert("C36-race-change-returns-at-once", w.done.Load() == 1)
+	verifAssert("C36-race-observer-returns-at-once", o.done.Load() == 1)
+	verifAssert("C36-race-level-before-or-after", o.level == before || o.level == after)
+	verifAssert("C36-race-getdelay-before-or-after", o.delay == h.delays[before] || o.delay == h.delays[after])
+	// the request: the delay of the level before or after the change, nothing else
+	lo, hi := h.delays[before], h.delays[after]
+	if lo > hi {
+		lo, hi = hi, lo
+	}
+	for _, d := range []time.Duration{lo, hi} {
+		if r.done.Load() == 1 {
+			break
+		}
+		if wait := r.start + int64(d) - verifClock(); wait > 0 {
+			time.Sleep(time.Duration(wait))
+			verifSettle()
+		}
+	}
+	verifAssert("C36-race-request-waits-no-longer-than-delay", r.done.Load() == 1)
+	el := time.Duration(r.end - r.start)
+	if lo != hi && el == hi {
+		verifReach("request-saw-the-longer-delay")
+	}
+	if lo != hi && el == lo {
+		verifReach("request-saw-the-shorter-delay")
+	}
+	verifAssert("C36-race-request-waits-a-current-delay", el == lo || el == hi)
+	verifAssert("C36-race-request-returns-nil", r.err == nil)
+	h.observe()
 }
